@@ -20,6 +20,73 @@ struct Edit {
     prio: i32,
 }
 
+/// R21: a helper function that is not part of the unit but is called from it, and whose body is a single expression,
+/// is inlined at the call: `f(a, b)` -> `{ let p = a; let q = b; (BODY) }`, `x.m(a)` -> `{ let vx_self = &x; let p = a; (BODY[self := vx_self]) }`.
+/// (A call into a helper without contract says nothing to a modular verifier; inlining a pure one-expression helper is
+/// semantics preserving.)  Names to inline and the files to look them up in come from VX_INLINE / VX_DEFS.
+#[derive(Clone)]
+struct InlineDef { params: Vec<String>, recv: u8 /* 0 none, 1 by value, 2 by ref */, body: String }
+static INLINE: std::sync::OnceLock<std::collections::HashMap<String, InlineDef>> = std::sync::OnceLock::new();
+
+struct BodyCheck { bad: bool }
+impl<'ast> Visit<'ast> for BodyCheck {
+    fn visit_expr_return(&mut self, _r: &'ast syn::ExprReturn) { self.bad = true; }
+    fn visit_expr_try(&mut self, _t: &'ast syn::ExprTry) { self.bad = true; }
+    fn visit_expr_closure(&mut self, _c: &'ast syn::ExprClosure) { self.bad = true; }
+    fn visit_macro(&mut self, m: &'ast syn::Macro) { if !m.path.is_ident("matches") { self.bad = true; } }
+}
+fn inline_def_of(sig: &syn::Signature, block: &syn::Block, src: &str) -> Option<InlineDef> {
+    if block.stmts.len() != 1 { return None; }
+    let e = match &block.stmts[0] { syn::Stmt::Expr(e, None) => e, _ => return None };
+    let mut bc = BodyCheck { bad: false };
+    bc.visit_expr(e);
+    if bc.bad { return None; }
+    let mut params = Vec::new();
+    let mut recv = 0u8;
+    for a in sig.inputs.iter() {
+        match a {
+            syn::FnArg::Receiver(r) => { recv = if r.reference.is_some() { 2 } else { 1 }; if r.mutability.is_some() && r.reference.is_some() { return None; } }
+            syn::FnArg::Typed(t) => match &*t.pat { syn::Pat::Ident(i) if i.by_ref.is_none() => params.push(i.ident.to_string()), _ => return None },
+        }
+    }
+    let (bs, be) = br(e.span());
+    Some(InlineDef { params, recv, body: src[bs..be].to_string() })
+}
+fn load_inline_defs() -> std::collections::HashMap<String, InlineDef> {
+    let mut out = std::collections::HashMap::new();
+    let names: Vec<String> = std::env::var("VX_INLINE").unwrap_or_default().split(',').filter(|s| !s.is_empty()).map(|s| s.to_string()).collect();
+    if names.is_empty() { return out; }
+    for f in std::env::var("VX_DEFS").unwrap_or_default().split(':').filter(|s| !s.is_empty()) {
+        let src = match std::fs::read_to_string(f) { Ok(s) => s, Err(_) => continue };
+        let file = match syn::parse_file(&src) { Ok(f) => f, Err(_) => continue };
+        for it in &file.items {
+            match it {
+                syn::Item::Fn(f) => { let n = f.sig.ident.to_string(); if names.contains(&n) { if let Some(d) = inline_def_of(&f.sig, &f.block, &src) { out.entry(n).or_insert(d); } } }
+                syn::Item::Impl(im) => for ii in &im.items { if let syn::ImplItem::Fn(f) = ii {
+                    let n = f.sig.ident.to_string(); if names.contains(&n) { if let Some(d) = inline_def_of(&f.sig, &f.block, &src) { out.entry(n).or_insert(d); } } } },
+                _ => {}
+            }
+        }
+    }
+    out
+}
+fn replace_self(body: &str) -> String {
+    let mut out = String::new();
+    let b = body.as_bytes();
+    let mut i = 0;
+    while i < b.len() {
+        if body[i..].starts_with("self") {
+            let before_ok = i == 0 || !(b[i - 1].is_ascii_alphanumeric() || b[i - 1] == b'_');
+            let after = i + 4;
+            let after_ok = after >= b.len() || !(b[after].is_ascii_alphanumeric() || b[after] == b'_');
+            if before_ok && after_ok { out.push_str("vx_self"); i += 4; continue; }
+        }
+        out.push(b[i] as char);
+        i += 1;
+    }
+    out
+}
+
 struct Cx<'s> {
     src: &'s str,
     items: Vec<Value>,
@@ -680,6 +747,25 @@ impl<'c, 's, 'ast> Visit<'ast> for FnVisitor<'c, 's> {
 
     fn visit_expr_call(&mut self, c: &'ast syn::ExprCall) {
         self.n_calls += 1;
+        // R21: inline a one-expression helper that is not part of the unit
+        if let syn::Expr::Path(pth) = &*c.func {
+            if let Some(last) = pth.path.segments.last() {
+                let defs = INLINE.get_or_init(load_inline_defs);
+                if let Some(d) = defs.get(&last.ident.to_string()) {
+                    if d.recv == 0 && d.params.len() == c.args.len() {
+                        let (cs, ce) = br(c.span());
+                        let mut t = String::from("{ ");
+                        for (p, a) in d.params.iter().zip(c.args.iter()) {
+                            let (as_, ae) = br(a.span());
+                            t.push_str(&format!("let {} = {}; ", p, self.cx.text(as_, ae)));
+                        }
+                        t.push_str(&format!("({}) }}", d.body));
+                        self.cx.edit(cs, ce, t, "R21");
+                        return;
+                    }
+                }
+            }
+        }
         // R3: assert_unchecked(c) -> assert!(c)
         if is_path_ending(&c.func, &["assert_unchecked"]) {
             let (a, b) = br(c.func.span());
@@ -704,6 +790,23 @@ impl<'c, 's, 'ast> Visit<'ast> for FnVisitor<'c, 's> {
     fn visit_expr_method_call(&mut self, m: &'ast syn::ExprMethodCall) {
         let name = m.method.to_string();
         self.n_calls += 1;
+        {
+            let defs = INLINE.get_or_init(load_inline_defs);
+            if let Some(d) = defs.get(&name) {
+                if d.recv != 0 && d.params.len() == m.args.len() {
+                    let (cs, ce) = br(m.span());
+                    let (rs, re) = br(m.receiver.span());
+                    let mut t = format!("{{ let vx_self = {}({}); ", if d.recv == 2 { "&" } else { "" }, self.cx.text(rs, re));
+                    for (p, a) in d.params.iter().zip(m.args.iter()) {
+                        let (as_, ae) = br(a.span());
+                        t.push_str(&format!("let {} = {}; ", p, self.cx.text(as_, ae)));
+                    }
+                    t.push_str(&format!("({}) }}", replace_self(&d.body)));
+                    self.cx.edit(cs, ce, t, "R21");
+                    return;
+                }
+            }
+        }
         if name == "unwrap" || name == "expect" {
             self.n_unwrap += 1;
         }
